@@ -57,15 +57,16 @@ type layoutTuple struct {
 }
 
 type scenario struct {
-	ID      int      `json:"id"`
-	Cfg     config   `json:"config"`
-	Layouts []string `json:"layouts"`
-	UTF8    bool     `json:"utf8"`              // charset=utf8: non-ASCII characters stay raw in the generated code
-	Special string   `json:"special,omitempty"` // replayed model counterexample
-	BannerX string   `json:"bannerText,omitempty"`
-	Pattern []string `json:"pattern,omitempty"` // input-map family: "P"/"I" per file in output order (deps, entry)
-	InMaps  []inMap  `json:"inmaps,omitempty"`  // one descriptor per position (zero value for "P")
-	Family  string   `json:"family,omitempty"`  // "", "inmap", "css", "ts"
+	ID      int       `json:"id"`
+	Cfg     config    `json:"config"`
+	Layouts []string  `json:"layouts"`
+	UTF8    bool      `json:"utf8"`              // charset=utf8: non-ASCII characters stay raw in the generated code
+	Special string    `json:"special,omitempty"` // replayed model counterexample
+	BannerX string    `json:"bannerText,omitempty"`
+	Pattern []string  `json:"pattern,omitempty"` // input-map family: "P"/"I" per file in output order (deps, entry)
+	InMaps  []inMap   `json:"inmaps,omitempty"`  // one descriptor per position (zero value for "P")
+	Family  string    `json:"family,omitempty"`  // "", "inmap", "css", "ts"
+	Extra   *extraCfg `json:"extra,omitempty"`   // css / ts families
 }
 
 func (s scenario) name() string {
@@ -73,6 +74,9 @@ func (s scenario) name() string {
 	u := ""
 	if s.UTF8 {
 		u = "/utf8"
+	}
+	if s.Extra != nil {
+		return s.Extra.name() + "/" + strings.Join(s.Layouts, "+")
 	}
 	x := ""
 	if len(s.Pattern) > 0 {
@@ -85,6 +89,9 @@ func (s scenario) name() string {
 }
 
 func (s scenario) key(kind string) map[string]interface{} {
+	if s.Extra != nil {
+		return map[string]interface{}{"kind": kind, "family": s.Family, "extra": s.Extra.name(), "layouts": strings.Join(s.Layouts, "+")}
+	}
 	c := s.Cfg
 	k := map[string]interface{}{"kind": kind, "mode": c.Mode, "format": c.Format, "minify": c.Minify, "banner": c.Banner, "root": c.Root,
 		"content": c.Content, "sm": c.Sm, "names": c.Names, "compose": c.Compose, "layouts": strings.Join(s.Layouts, "+"), "utf8": s.UTF8}
@@ -229,6 +236,9 @@ type problem struct {
 
 // materialise + build one scenario
 func runScenario(r *core.Run, sc *scenario) *built {
+	if sc.Extra != nil {
+		return runExtraScenario(r, sc)
+	}
 	c := sc.Cfg
 	res := &built{}
 	root := filepath.Join(r.Scratch, fmt.Sprintf("s%d", sc.ID))
@@ -667,11 +677,11 @@ func Run(r *core.Run) {
 
 	// ---- design: TLC on the model -------------------------------------------
 	var wg sync.WaitGroup
-	designs := []string{"SourceMap.link.src.quick.cfg", "SourceMap.link.quick.cfg", "SourceMap.text.quick.cfg", "SourceMap.shift.cfg"}
+	designs := []string{"SourceMap.link.src.quick.cfg", "SourceMap.link.quick.cfg", "SourceMap.text.quick.cfg", "SourceMap.shift.cfg", "SourceMap.find.cfg"}
 	if r.Thorough() {
 		designs = []string{"SourceMap.link.c2m2.cfg", "SourceMap.link.c3m1.cfg", "SourceMap.link.c3m3l0.cfg",
 			"SourceMap.link.src.c3m1.cfg", "SourceMap.link.src.c2m2.cfg",
-			"SourceMap.text.cfg", "SourceMap.shift.m3.cfg"}
+			"SourceMap.text.cfg", "SourceMap.shift.m3.cfg", "SourceMap.find.cfg"}
 	}
 	if r.Replay != "" || os.Getenv("C07_NODESIGN") != "" { // (the second: development aid, not used by the registered commands)
 		designs = nil
@@ -679,7 +689,7 @@ func Run(r *core.Run) {
 	wg.Add(1)
 	go func() {
 		defer wg.Done()
-		core.Parallel(len(designs), 3, func(i int) {
+		core.Parallel(len(designs), 4, func(i int) {
 			tlcrun.MustHold(r, tlcrun.Options{Module: "SourceMap", Config: designs[i], Workers: 2, TimeoutSec: 3000, XssMB: 64})
 		})
 	}()
@@ -701,11 +711,31 @@ func Run(r *core.Run) {
 		}
 	}()
 
+	// second model-level counterexample: composition through an input map with 1-field
+	// segments (the parser drops them); replayed by the "holes" input maps
+	replayHoles := false
+	if r.Replay == "" {
+		wg.Add(1)
+		go func() {
+			defer wg.Done()
+			f1, ferr := tlcrun.Run(r, tlcrun.Options{Module: "SourceMap", Config: "SourceMap.find1.cfg", Workers: 1, TimeoutSec: 1200})
+			if ferr != nil {
+				r.Infra("find1 config: %v", ferr)
+			} else if f1.Violated == "ComposeHonoursUnmapped" {
+				replayHoles = true
+				r.Logf("TLC SourceMap/SourceMap.find1.cfg: counterexample to ComposeHonoursUnmapped found on the model (text after a 1-field segment inherits the previous segment); replayed by the input maps with holes")
+			} else {
+				r.Infra("find1 config: the expected model-level counterexample was not found")
+			}
+		}()
+	}
+
 	// ---- scenarios -------------------------------------------------------------
 	var configs []config
 	var layouts [][]string
 	var inmaps []inMap
 	var patterns [][]string
+	var extras []extraCfg
 	gres := tlcrun.MustHold(r, tlcrun.Options{Module: "SourceMapGen", Config: "SourceMapGen.cfg", Workers: 1, TimeoutSec: 1200, OnCase: func(raw []byte) {
 		var probe struct {
 			Kind string `json:"kind"`
@@ -727,6 +757,11 @@ func Run(r *core.Run) {
 			var d inMap
 			if json.Unmarshal(raw, &d) == nil {
 				inmaps = append(inmaps, d)
+			}
+		} else if probe.Kind == "css" || probe.Kind == "ts" {
+			var e extraCfg
+			if json.Unmarshal(raw, &e) == nil {
+				extras = append(extras, e)
 			}
 		} else if probe.Kind == "pattern" {
 			var l layoutTuple
@@ -832,6 +867,17 @@ func Run(r *core.Run) {
 				addScen(c, multi[r.Rand.Intn(len(multi))])
 			}
 		}
+	}
+	// css / ts families: every configuration in the thorough tier, a seeded third in the quick tier
+	sort.Slice(extras, func(i, j int) bool { return extras[i].name() < extras[j].name() })
+	r.Set("extra_configs_enumerated", len(extras))
+	for i := range extras {
+		if !r.Thorough() && r.Rand.Intn(3) != 0 {
+			continue
+		}
+		id++
+		e := extras[i]
+		scens = append(scens, &scenario{ID: id, Family: e.Kind, Extra: &e, Layouts: multi[r.Rand.Intn(len(multi))]})
 	}
 	{
 		// always replayed (the TLC run above only documents where it comes from)
@@ -970,7 +1016,7 @@ func Run(r *core.Run) {
 	}
 	for _, sc := range scens {
 		c := sc.Cfg
-		nontrivial := len(sc.Layouts) >= 2 || c.CanShift
+		nontrivial := len(sc.Layouts) >= 2 || c.CanShift || sc.Family != ""
 		for _, l := range sc.Layouts {
 			if l == "crlf" || l == "ls" || l == "astral" {
 				nontrivial = true
@@ -987,7 +1033,7 @@ func Run(r *core.Run) {
 	r.Set("rebase_skip_reasons", skipReasons)
 	r.Logf("maps: %d mappings decoded, %d marker-true, %d names true, %d cover; rebase: %d jobs, %d mappings compared, %d files skipped",
 		totals["mappings"], totals["marker_true"], totals["name_true"], totals["cover"], rebaseJobs, rebaseCompared, rebaseSkipped)
-	if totals["marker_true"] == 0 {
+	if totals["marker_true"]+totals["css_marker_true"] == 0 {
 		r.Infra("no marker mapping was checked at all")
 	}
 	// ---- bind the Join algebra: TLC runs the spec's LinkAll on recorded chunks ------
@@ -1006,7 +1052,8 @@ func Run(r *core.Run) {
 	}
 	wg.Wait()
 	r.Set("model_counterexample_crlf_split_found", replayCRLF)
-	r.Set("rule", "case = one (configuration, layout tuple) pair of SourceMapGen.tla materialised as marker files and built with the real api.Build/Transform; every emitted map is decoded and every mapping checked against the marker tokens; non-trivial = at least 2 source files, or code splitting (final-path shifts), or a CRLF / U+2028 / astral layout; distinct by the full scenario name")
+	r.Set("model_counterexample_unmapped_segment_found", replayHoles)
+	r.Set("rule", "case = one (configuration, layout tuple) pair of SourceMapGen.tla materialised as marker files and built with the real api.Build/Transform; every emitted map is decoded and every mapping checked against the marker tokens; non-trivial = at least 2 source files, or code splitting (final-path shifts), or a CRLF / U+2028 / astral layout, or a scenario of the input-map / css / ts families (bundles of several files by construction); distinct by the full scenario name (for the input-map family: configuration x position pattern x input-map descriptors x layout tuple)")
 }
 
 // loadReplay finds the scenario record inside a replay file written by r.Violation
